@@ -32,28 +32,32 @@ def showRODyof (r : Res (Option M.Date)) : String :=
 def mix (h : Nat) (v : Int) : Nat :=
   ((h ^^^ (v % 18446744073709551616).toNat) * 1099511628211) % 18446744073709551616
 
-def mixObs (h : Nat) (r : Res (Option M.Date)) : Nat :=
+/-- the same mixing on machine words (fast path for the block digests) -/
+def mix64 (h : UInt64) (v : Int) : UInt64 :=
+  (h ^^^ v.toInt64.toUInt64) * 1099511628211
+
+def mixObs (h : UInt64) (r : Res (Option M.Date)) : UInt64 :=
   match r with
   | .ok (some d) => match obsList d with
-    | .ok xs => xs.foldl mix h
-    | .panic => mix h (-2)
-  | .ok none => mix h (-1)
-  | .panic => mix h (-2)
+    | .ok xs => xs.foldl mix64 h
+    | .panic => mix64 h (-2)
+  | .ok none => mix64 h (-1)
+  | .panic => mix64 h (-2)
 
 /-- digest of all `from_yo_opt(y, 0..=367)` results of one year -/
-def yearDigestYo (h : Nat) (y : Int) : Nat :=
+def yearDigestYo (h : UInt64) (y : Int) : UInt64 :=
   (List.range 368).foldl (fun h o => mixObs h (M.Date.from_yo_opt y o)) h
 
 /-- digest of all `from_ymd_opt(y, 0..=13, 0..=32)` results of one year (packed word only) -/
-def yearDigestYmd (h : Nat) (y : Int) : Nat :=
+def yearDigestYmd (h : UInt64) (y : Int) : UInt64 :=
   (List.range 14).foldl (fun h m =>
     (List.range 33).foldl (fun h d =>
       match M.Date.from_ymd_opt y m d with
-      | .ok (some x) => mix h x.yof
-      | .ok none => mix h (-1)
-      | .panic => mix h (-2)) h) h
+      | .ok (some x) => mix64 h x.yof
+      | .ok none => mix64 h (-1)
+      | .panic => mix64 h (-2)) h) h
 
-def blockDigest (f : Nat → Int → Nat) (y0 y1 : Int) : Nat :=
+def blockDigest (f : UInt64 → Int → UInt64) (y0 y1 : Int) : UInt64 :=
   let n := (y1 - y0 + 1).toNat
   (List.range n).foldl (fun h (i : Nat) => f h (y0 + (i : Int))) 14695981039346656037
 
